@@ -1162,6 +1162,14 @@ class _HitenBase(_SerializeBase, ABC):
                         except (AttributeError, TypeError):
                             # Skip properties that can't be set (e.g., read-only properties)
                             continue
+                # The dynamics service now owns the restored values. Do not keep a second
+                # copy in the object's own __dict__: __getstate__ starts from that dict and
+                # only overwrites entries whose service value is not None, so a stale copy
+                # would be saved (and resurrected by the next load) once the service has
+                # invalidated the attribute.
+                for attr_name in ('_period', '_trajectory', '_times', '_stability_info'):
+                    if attr_name in self._computed_properties_to_restore and hasattr(target, attr_name):
+                        self.__dict__.pop(attr_name, None)
             # Clean up the temporary storage
             delattr(self, '_computed_properties_to_restore')
         
